@@ -229,6 +229,10 @@ func (db *DB) writeLocked(batch, ourBatch *Batch, merge, sync bool) error {
 
 	// Write journal.
 	if err := db.writeJournal(batches, seq, sync); err != nil {
+		// The failed record may have reached the journal: never reuse its
+		// sequence numbers, otherwise recovery rejects the records written
+		// after it as having an invalid sequence number.
+		db.addSeq(uint64(batchesLen(batches)))
 		db.unlockWrite(overflow, merged, err)
 		return err
 	}
